@@ -30,6 +30,31 @@ Definition dump_stats (st : stats) : list Z :=
   ++ dump_pstats (st_all st) ++ dump_pstats (st_query st) ++ dump_pstats (st_interactive st)
   ++ dump_pstats (st_batch st).
 
+(* Between ticks the runner puts every rational of the state into lowest terms. The model's decisions
+   depend on rationals only through ==-invariant operations (comparisons, arithmetic, rnd64 — see
+   Rnd64Facts.rnd64_proper), so this changes no answer; without it a policy that hands a whole pool's free
+   RAM to one container squares the denominator of that fraction in every cycle. *)
+Definition norm_container (c : container) : container :=
+  {| c_id := c_id c; c_ops := c_ops c; c_cpu := c_cpu c; c_ram := Qred (c_ram c); c_prio := c_prio c;
+     c_opidx := c_opidx c; c_rest := c_rest c; c_frozen := c_frozen c; c_mem := Qred (c_mem c);
+     c_can_suspend := c_can_suspend c; c_completed := c_completed c; c_error := c_error c;
+     c_ticks := c_ticks c; c_susp_left := c_susp_left c |}.
+Definition norm_pool (p : pool) : pool :=
+  {| p_id := p_id p; p_max_cpu := p_max_cpu p; p_max_ram := p_max_ram p;
+     p_avail_cpu := p_avail_cpu p; p_avail_ram := Qred (p_avail_ram p); p_consumed := Qred (p_consumed p);
+     p_active := map norm_container (p_active p); p_suspending := map norm_container (p_suspending p);
+     p_suspended := map norm_container (p_suspended p);
+     p_num_completed := p_num_completed p; p_tick_times := p_tick_times p |}.
+Definition norm_result (r : result) : result :=
+  {| r_cid := r_cid r; r_ops := r_ops r; r_cpu := r_cpu r; r_ram := Qred (r_ram r); r_prio := r_prio r;
+     r_pool := r_pool r; r_err := r_err r |}.
+Definition norm_sim (s : sim) : sim :=
+  {| sm_exec := {| e_world := e_world (sm_exec s); e_pools := map norm_pool (e_pools (sm_exec s));
+                   e_next := e_next (sm_exec s) |};
+     sm_sched := sm_sched s; sm_results := map norm_result (sm_results s);
+     sm_outstanding := sm_outstanding s; sm_arrival := sm_arrival s; sm_lat := sm_lat s;
+     sm_created := sm_created s; sm_nasg := sm_nasg s; sm_nsusp := sm_nsusp s; sm_nfail := sm_nfail s |}.
+
 Fixpoint sim_dump (C : cfg) (a : algo) (mask : Z) (tick : Z) (s : sim) (arrivals : list (list nat))
   : list Z * option sim :=
   match arrivals with
@@ -38,7 +63,7 @@ Fixpoint sim_dump (C : cfg) (a : algo) (mask : Z) (tick : Z) (s : sim) (arrivals
       match sim_tick C a tick s newp with
       | Err e => ([err_code e], None)
       | Ok (s', lg) =>
-          let '(o, f) := sim_dump C a mask (tick + 1)%Z s' t in
+          let '(o, f) := sim_dump C a mask (tick + 1)%Z (norm_sim s') t in
           (0%Z :: dump_tick mask s' lg ++ o, f)
       end
   end.
